@@ -74,7 +74,7 @@ def param_spec(draw, name, types=None, allow_no_default=True, force_default=Fals
 
 @st.composite
 def interface_spec(draw, name=None, min_params=0, max_params=6, types=None, returns=None, suffix_defaults=True,
-                   names=PARAM_NAMES):
+                   names=PARAM_NAMES, optional_needs_default=False):
     """An interface description in the common representable domain (DESIGN.md §2.4)."""
     n = draw(st.integers(min_params, max_params))
     pnames = draw(st.lists(st.sampled_from(names), min_size=n, max_size=n, unique=True))
@@ -86,6 +86,9 @@ def interface_spec(draw, name=None, min_params=0, max_params=6, types=None, retu
             p = draw(param_spec(pn, types=types, allow_no_default=not force, force_default=force))
             if not force:
                 p["default"] = None
+                if optional_needs_default and p["typ"].startswith("Optional["):
+                    # keep the suffix rule: a parameter before the defaults suffix cannot be Optional here
+                    p["typ"] = p["typ"][len("Optional["):-1]
         else:
             p = draw(param_spec(pn, types=types))
         params.append(p)
